@@ -692,7 +692,7 @@ def run_directed(case):
             "case": case}
 
 
-DIRECTED = ["A", "F", "G", "U", "I", "J", "K", "L", "R", "EE", "FF", "RR", "SS", "TT"]
+DIRECTED = ["A", "F", "G", "U", "I", "J", "K", "L", "R", "EE", "FF", "RR", "SS", "TT", "WW"]
 
 
 def _n(v):
